@@ -537,6 +537,10 @@ Definition restore_stacks (st : vmstate) (iterLen : nat) : vmstate :=
   let tail := firstn n (iters st) in
   add_trace (set_iters st (skipn n (iters st))) (flat_map (close_events (intr st)) tail).
 
+(* dropStacks(iterLen): truncate without calling return() *)
+Definition drop_stacks (st : vmstate) (iterLen : nat) : vmstate :=
+  set_iters st (skipn (length (iters st) - iterLen) (iters st)).
+
 Definition pending := option val.   (* Some v = catchable exception value; None = uncatchable *)
 
 (* handleThrow; [fs] is the try stack being walked (top first) *)
@@ -548,7 +552,12 @@ Fixpoint handle_throw (ex : pending) (p : payload) (st : vmstate) (fs : list fra
       let skipu := match ex with None => negb (f_marker tf) | Some _ => false end in
       if dead || skipu then handle_throw ex p st r
       else
-        let st1 := restore_stacks (set_stk st (keep (f_sp tf) (stk st))) (f_iterLen tf) in
+        let st0 := set_stk st (keep (f_sp tf) (stk st)) in
+        (* since fix 22853aa (finding F12): an uncatchable payload drops the iterators without closing them *)
+        let st1 := match ex with
+                   | Some _ => restore_stacks st0 (f_iterLen tf)
+                   | None => drop_stacks st0 (f_iterLen tf)
+                   end in
         if f_marker tf then
           match ex with Some v => Uncaught v (set_trys st1 (tf :: r)) | None => UncOut p (set_trys st1 (tf :: r)) end
         else
